@@ -69,6 +69,7 @@ def build(flavour):
     W['top'] = cls()
     W['base'] = cls()
     W['reg'] = cls((W['base'],))
+    W['saved_lookup'] = W['reg'].lookup     # an entry point fetched before anything happens
     for t in 'abcdehgknt':
         W['f' + t] = F(t)
     # the third registry is populated from the start, so that one re-basing is
@@ -116,7 +117,8 @@ LOOK += [('lookup', ('R1',), 'P', 'n'), ('lookup', ('R1',), 'P', 't'), ('lookup'
          ('queryAdapter', 'ob2', 'P', ''), ('adapter_hook', 'ob', 'P1', ''),
          ('subscriptions', ('R1',), 'NONE'), ('subscribers', 'ob', 'NONE'),
          ('queryAdapter', 'obz', 'P', ''), ('lookup', ('SZS',), 'P', ''),
-         ('lookup', ('E',), 'P', 'any')]
+         ('lookup', ('E',), 'P', 'any'),
+         ('saved-lookup', ('R1',), 'P', '')]
 LOOKSET = set(LOOK)
 
 
@@ -182,6 +184,8 @@ def do_look(W, op):
     r = W['reg']
     if t == 'lookup':
         return norm(r.lookup([W[x] for x in op[1]], W[op[2]], op[3]))
+    if t == 'saved-lookup':
+        return norm(W['saved_lookup']([W[x] for x in op[1]], W[op[2]], op[3]))
     if t == 'lookup1':
         return norm(r.lookup1(W[op[1][0]], W[op[2]], op[3]))
     if t == 'lookupAll':
@@ -308,7 +312,14 @@ def evaluate(arg):
                              case=dict(flavour=flavour, hist=h),
                              detail=dict(flavour=flavour, history=h, error=repr(e), where=tb[-8:])))
             continue
-        if v:
+        if v and v[1][0] == 'saved-lookup' and ('rebuild', 'reg') in h[:v[0]]:
+            # a family of its own (known finding): rebuild() creates a new lookup
+            # object, and an entry point fetched earlier stays bound to the old one
+            viol.append(dict(sig='C05:entry-point-fetched-before-rebuild',
+                             case=dict(flavour=flavour, hist=h),
+                             detail=dict(flavour=flavour, history=h, step=v[0], lookup=v[1],
+                                         got=v[2], fresh_registry_answers=v[3])))
+        elif v:
             viol.append(dict(sig='C05:stale:%s-after-%s' % (v[1][0], '+'.join(sorted({o[0] for o in h[:v[0]] if o not in LOOKSET and o != ('WARM',)}))),
                              case=dict(flavour=flavour, hist=h),
                              detail=dict(flavour=flavour, history=h, step=v[0], lookup=v[1],
@@ -357,11 +368,11 @@ def run(ctx):
                 ctx.add(transitions=tot)
                 ctx.info['%s/%s/%s' % (impl, flavour, shape)] = tot
                 ctx.log(impl, flavour, shape, 'histories', tot)
-                if ctx.viol and not ctx.opts.get('keep_going'):
+                if ctx.unknown_viol() and not ctx.opts.get('keep_going'):
                     break
-            if ctx.viol and not ctx.opts.get('keep_going'):
+            if ctx.unknown_viol() and not ctx.opts.get('keep_going'):
                 break
-        if ctx.viol and not ctx.opts.get('keep_going'):
+        if ctx.unknown_viol() and not ctx.opts.get('keep_going'):
             break
     ctx.count['states'] = ctx.count['transitions']
     ctx.count['traces_validated_against_impl'] = ctx.count['transitions']
